@@ -140,7 +140,10 @@ var c16Main = newPart("C16", "roundtrip",
 	"rapid: issuer (no ':'), account, secret = non-empty valid UTF-8 strings over an alphabet biased to space % / ? # & = + @ ; , \" < > \\ control and non-ASCII characters, percent-escape look-alikes (%20 %zz %), leading '/', '.' and '..'; digits 0..255, period 0..2^31, three hashes, totp/hotp; oracle (for code lengths 0..10; above 10 the builder or the parser may refuse, and if neither does the same equalities are demanded): ParseOTPAuthURL(url.Parse(Generate*URL(p).String())) returns p's issuer, account, secret, hash, digits (0 -> 6) and, for TOTP, period (0 -> 30); scheme otpauth, host = type, issuer parameter == label issuer; non-trivial = some string contains a character net/url must escape",
 	checkC16)
 
-var urlAtoms = []string{" ", "%", "/", "?", "#", "&", "=", "+", "@", ";", ",", "\"", "<", ">", "\\", "%20", "%zz", "%2F", "%3A", "..", ".", "//", "\t", "\n", "\x00", "\x7f", "é", "日本", "😀", "a", "b", "Z", "0", "~", "-", "_", "!", "*", "'", "(", ")", "[", "]", "{", "}", "|", "^", "`", "$"}
+var urlAtoms = []string{" ", "%", "/", "?", "#", "&", "=", "+", "@", ";", ",", "\"", "<", ">", "\\", "%20", "%zz", "%2F", "%3A", "..", ".", "//", "\t", "\n", "\x00", "\x7f", "é", "日本", "😀", "a", "b", "Z", "0", "~", "-", "_", "!", "*", "'", "(", ")", "[", "]", "{", "}", "|", "^", "`", "$",
+	// characters with another normalised, folded or trimmed form: decomposed and compatibility characters (e + combining acute,
+	// the Angstrom sign, conjoining jamo, a ligature, a full-width letter), letters whose case mapping is special, invisible ones
+	"e\u0301", "\u212b", "\u1100\u1161", "\ufb01", "\uff21", "\u00c5", "I\u0307", "\u017f", "\u00df", "\u0130", "\u0131", "\u03c2", "\u200b", "\ufeff", "\u00a0", "\u2028", "\u0085"}
 
 func drawURLString(t *rapid.T, label string, allowColon bool) string {
 	var s string
